@@ -337,6 +337,22 @@ func labelsWithEmptyValueSelector(selector *promParser.VectorSelector) (names []
 	return names
 }
 
+// stringParam returns the value of a string parameter, which the PromQL
+// grammar allows to be wrapped in any number of parentheses.
+func stringParam(e promParser.Expr) (string, bool) {
+	for {
+		pe, ok := e.(*promParser.ParenExpr)
+		if !ok {
+			break
+		}
+		e = pe.Expr
+	}
+	if sl, ok := e.(*promParser.StringLiteral); ok {
+		return sl.Val, true
+	}
+	return "", false
+}
+
 func GetQueryFragment(expr string, pos posrange.PositionRange) string {
 	return expr[pos.Start:pos.End]
 }
@@ -405,8 +421,10 @@ func walkAggregation(expr string, n *promParser.AggregateExpr) (src []Source) {
 			s.Aggregation = n
 			s.Operation = "count_values"
 			// Param is the label to store the count value in.
-			s = includeLabel(s, n.Param.(*promParser.StringLiteral).Val)
-			s = guaranteeLabel(s, n.Param.(*promParser.StringLiteral).Val)
+			if name, ok := stringParam(n.Param); ok {
+				s = includeLabel(s, name)
+				s = guaranteeLabel(s, name)
+			}
 			s = excludeLabel(s, "Aggregation removes metric name.", n.PosRange, labels.MetricName)
 			src = append(src, s)
 		}
@@ -574,7 +592,9 @@ If you're hoping to get instance specific labels this way and alert when some ta
 	case "label_replace", "label_join":
 		// One label added to the results.
 		s.Returns = promParser.ValueTypeVector
-		s = guaranteeLabel(s, n.Args[1].(*promParser.StringLiteral).Val)
+		if name, ok := stringParam(n.Args[1]); ok {
+			s = guaranteeLabel(s, name)
+		}
 
 	case "pi":
 		s.Returns = promParser.ValueTypeScalar
